@@ -136,7 +136,7 @@ impl Property for C10 {
     fn runs(&self, tier: Tier) -> u64 {
         match tier {
             Tier::Quick => 60_000,
-            Tier::Thorough => 3_000_000,
+            Tier::Thorough => 250_000,
         }
     }
 
